@@ -841,6 +841,34 @@ def j5(rep, src, mir):
         rep.error("J5: only %d MIR bodies in src/data_type/value.rs" % n)
 
 
+def j6(rep, src, impls):
+    """X -> Text conversions print the inner value, or the wrapper only while its Display is transparent."""
+    from .util_display import transparent_displays, wrapper_prints
+
+    rep.rule(
+        "J6",
+        "text renderings `Base<X, Text>::value` (X primitive): when the wrapper element itself is printed (arg.to_string(), format!(\"{arg}\") on the function's argument, outside the "
+        "value_map closure that receives the inner value) `impl Display for value::X` is the transparent `write!(f, \"{}\", self.0)`",
+        floor=5,
+        necessary="a Display for people (fixed date layout without sub-seconds, 5 significant digits) maps different values to one text: the conversion is no longer injective and does not agree with the type image",
+    )
+    disp = transparent_displays(src)
+    for ty, fns in sorted(impls.items()):
+        args = base_args(ty)
+        if not (len(args) == 2 and args[1] == "Text" and args[0] in PRIMS and args[0] != "Text"):
+            continue
+        f = fns["value"]
+        ap = [p["pat"]["name"] for p in f.params if not p.get("self") and p["pat"]["k"] == "ident"]
+        # prints of the parameter itself, not inside a closure that rebinds a name (value_map(|x| .., arg) passes the inner value to the closure)
+        outside = {"k": "block", "stmts": f.body["stmts"]}
+        hits = [(n, x) for n, x in wrapper_prints(outside, set(ap)) if not any(c["k"] == "closure" and any(y is x for y in walk(c["body"])) and n in {b for p_ in c["params"] for b in pat_binds(p_)} for c in find(f.body, "closure"))]
+        tr = disp.get(args[0], (None, None))
+        key = "%s::value@display" % ty
+        rep.instance("J6", key, {"impl": ty, "prints_wrapper": bool(hits), "display_transparent": tr[0]})
+        if hits and tr[0] is not True:
+            rep.violation("J6", key, "%s prints its argument through `impl Display for value::%s`, which is not the transparent `write!(f, \"{}\", self.0)` (%s)" % (ty, args[0], tr[1]), f.where())
+
+
 def run(rep):
     rep.explanation = (
         "Static check of data_type/injection.rs (syn AST + type-checked MIR of the current tree). Decides: the variant tables of super_image and value agree for the 24 dispatching impls (J1); "
@@ -859,6 +887,7 @@ def run(rep):
     mir = Mir(facts.mir_facts())
     j3(rep, mir)
     j5(rep, src, mir)
+    j6(rep, src, impls)
     rep.extra["primitive_pairs"] = {"%s->%s" % k: v[0] for k, v in PAIRS.items()}
     from .util_enum import n1
 
